@@ -118,6 +118,12 @@ func tryFastCompare(expression string) *fastCompare {
 		return &fastCompare{field: m[1], op: m[2], numLit: n}
 	}
 	if m := fastFieldOpStr.FindStringSubmatch(expression); m != nil {
+		// The literal is taken verbatim from the source text. expr-lang
+		// interprets backslash escapes inside string literals, so a literal
+		// containing one is left to the general path.
+		if strings.Contains(m[3], `\`) {
+			return nil
+		}
 		return &fastCompare{field: m[1], op: m[2], strLit: m[3], isString: true}
 	}
 	return nil
